@@ -642,8 +642,17 @@ impl KalmanFilter {
                 target - self.running_filter.freq_offset() * 1e6,
                 self.config.max_freq_offset,
             );
-            if let Ok(time) = clock.set_frequency(cur_frequency + error_ppm) {
-                self.cur_frequency = Some(cur_frequency + error_ppm);
+            // `cur + (bound - cur)` is rounded twice and can end up one ulp outside the
+            // bound, so clamp the command itself (and never program a non-finite value)
+            let new_frequency = (cur_frequency + error_ppm)
+                .clamp(-self.config.max_freq_offset, self.config.max_freq_offset);
+            if !new_frequency.is_finite() {
+                log::error!("Not programming non-finite clock frequency");
+                return;
+            }
+            let error_ppm = new_frequency - cur_frequency;
+            if let Ok(time) = clock.set_frequency(new_frequency) {
+                self.cur_frequency = Some(new_frequency);
                 self.running_filter.absorb_frequency_steer(
                     error_ppm,
                     time,
